@@ -372,3 +372,32 @@ def Comb.comp (K1 : Comb κ1 α β) (K2 : Comb κ2 β γ) : Comb (κ1 × κ2) α
   send := fun k x => ((K1.send k.1 x).subst K2 k.2).bind fun r => .ret (r.1, r.2)
   fin := fun k => ((K1.fin k.1).subst K2 k.2).bind fun r => .ret ((r.1.1, r.2), r.1.2)
 end HvPush
+
+namespace HvPush
+/-! ### a two-port combinator whose downstreams are two combinators -/
+
+/-- renumber the ports of a program (`+ n`) -/
+def Prog.shift (n : Nat) : Prog β ρ → Prog β ρ
+  | .ret r => .ret r
+  | .rdy i k => .rdy (i + n) fun b => (k b).shift n
+  | .snd i x k => .snd (i + n) x (k.shift n)
+  | .fin i k => .fin (i + n) fun b => (k b).shift n
+
+/-- calls on port 0 go to `Ka`, all others to `Kb`, whose own ports come after `Ka`'s `na` ports -/
+def Prog.subst2 (Ka : Comb κa β γ) (Kb : Comb κb β γ) (na : Nat) : Prog β ρ → κa → κb → Prog γ (ρ × κa × κb)
+  | .ret r, ka, kb => .ret (r, ka, kb)
+  | .rdy i k, ka, kb =>
+    if i = 0 then (Ka.ready ka).bind fun a => (k a.2).subst2 Ka Kb na a.1 kb
+    else ((Kb.ready kb).shift na).bind fun a => (k a.2).subst2 Ka Kb na ka a.1
+  | .snd i x k, ka, kb =>
+    if i = 0 then (Ka.send ka x).bind fun ka' => k.subst2 Ka Kb na ka' kb
+    else ((Kb.send kb x).shift na).bind fun kb' => k.subst2 Ka Kb na ka kb'
+  | .fin i k, ka, kb =>
+    if i = 0 then (Ka.fin ka).bind fun a => (k a.2).subst2 Ka Kb na a.1 kb
+    else ((Kb.fin kb).shift na).bind fun a => (k a.2).subst2 Ka Kb na ka a.1
+
+def Comb.comp2 (K1 : Comb κ1 α β) (Ka : Comb κa β γ) (Kb : Comb κb β γ) (na : Nat) : Comb (κ1 × κa × κb) α γ where
+  ready := fun k => ((K1.ready k.1).subst2 Ka Kb na k.2.1 k.2.2).bind fun r => .ret ((r.1.1, r.2.1, r.2.2), r.1.2)
+  send := fun k x => ((K1.send k.1 x).subst2 Ka Kb na k.2.1 k.2.2).bind fun r => .ret (r.1, r.2.1, r.2.2)
+  fin := fun k => ((K1.fin k.1).subst2 Ka Kb na k.2.1 k.2.2).bind fun r => .ret ((r.1.1, r.2.1, r.2.2), r.1.2)
+end HvPush
